@@ -20,12 +20,28 @@
      C09_counts_refuted_before_fix             period 100 ms, 3 consecutive samples:
         count_covered = int(0.3 // 0.1) = 2 *)
 From Coq Require Import Lia.
-From Verif Require Import model.RingBuffer model.RingBufferSpec
+From Verif Require Import gen.RingBuffer model.RingBuffer model.RingBufferSpec
      proofs.RingBufferGaps proofs.RingBufferInv proofs.RingBufferObs proofs.RingBufferDecl.
 
-(* T-tie: the index wrapping the model uses is OrderedRingBuffer.wrap as translated from /repo *)
+(* T-tie: wrap, normalize_timestamp and Gap.contains of the model ARE the methods translated from
+   /repo's buffer.py on every run (gen/RingBuffer.v); these lemmas are what the proofs use of them *)
 Theorem C09_wrap_as_translated : forall c i, wrap c i = i mod c.
 Proof. exact wrap_mod. Qed.
+
+Theorem C09_contains_as_translated : forall g k, contains g k = (fst g <=? k) && (k <? snd g).
+Proof. exact contains_unfold. Qed.
+
+(* normalize_timestamp(t) = align + n * period with n the floor quotient, +1 when the remainder is
+   beyond half a period, or exactly half with n odd (half = timedelta / 2, modelled by td_half) *)
+Theorem C09_normalize_as_translated : forall p a t, 0 < p ->
+  gen.RingBuffer.rb_normalize_timestamp t a p (td_half p) = ts_of p a (norm_slot p a t) /\
+  norm_slot p a t =
+  (let n := (t - a) / p in let r := (t - a) mod p in
+   if negb (r =? 0) && (((td_half p =? r) && negb (n mod 2 =? 0)) || (td_half p <? r)) then n + 1 else n).
+Proof.
+  intros p a t Hp. split; [|apply norm_slot_unfold; exact Hp].
+  rewrite (norm_slot_unfold p a t Hp). unfold ts_of. rewrite normalize_timestamp_spec. reflexivity.
+Qed.
 
 (* ------------------------------------------------------------------ stage 1: update + gap list *)
 Theorem C09_init : forall cs, cs <> [] -> Inv (init_rb cs) spec_init.
@@ -166,6 +182,8 @@ Example C09_nonvacuous :
 Proof. cbv zeta. split; [discriminate|]. vm_compute. repeat split; reflexivity. Qed.
 
 Print Assumptions C09_wrap_as_translated.
+Print Assumptions C09_contains_as_translated.
+Print Assumptions C09_normalize_as_translated.
 Print Assumptions C09_init.
 Print Assumptions C09_same_rejects.
 Print Assumptions C09_refines.
